@@ -397,6 +397,24 @@ func c04Judge(w *mon.W, c c04Case) {
 	} else if res.P > hi {
 		dist = res.P - hi
 	}
+	if band := c04DofBand(ds); band != "" {
+		// beyond the 2..40 values of the basic workload: which region of
+		// degrees of freedom the reference puts this test in, and whether the
+		// oracle could tell the Student-t tail from the normal one there
+		// (reference-side quantities only)
+		w.Hit(band)
+		w.Hit(c.Test + "-" + band)
+		var pn float64
+		switch alt {
+		case stats.LocationLess:
+			pn = c04Phi(ts)
+		case stats.LocationGreater:
+			pn = c04Phi(-ts)
+		default:
+			pn = 2 * c04Phi(-math.Abs(ts))
+		}
+		w.HitIf(math.Abs(pAt(ts, ds)-pn) > 1e-7 && hi-lo < 1e-8, band+":P-differs-from-normal-tail-by>1e-7")
+	}
 	if !w.Err("P", dist, 1e-9) || math.IsNaN(res.P) {
 		w.Violate("P", fmt.Sprintf("%s test alt=%v: P=%.12g, Student-t reference in [%.12g, %.12g] (T=%.10g DoF=%.10g)", c.Test, alt, res.P, lo, hi, ts, ds), c)
 	}
@@ -470,13 +488,23 @@ func c04MeanCI(w *mon.W, c c04Case) {
 		th := ref.F64(ref.Quo(ref.Sub(ref.NF(hi), m.Mean), ref.NF(se)))
 		content := ref.TCDF(nu, th) - ref.TCDF(nu, tl)
 		if tl < 0 && th > 0 {
-			content = 1 - ref.TCDF(nu, tl) - ref.TCDF(nu, -th)
+			content = 1 - c04TLower(nu, tl) - c04TLower(nu, -th)
 		}
 		kappa := math.Abs(mf) / sd
 		relT := 32 * float64(n+2) * eps * (1 + kappa) // relative error of the half width in t units
 		slack := relT*math.Abs(th)*ref.TPDF(nu, th)*2 + 2*tolM/se*ref.TPDF(nu, th)
 		w.HitIf(conf < 1e-6, "meanci-tiny-c")
 		w.HitIf(conf > 1-1e-6, "meanci-c-near-1")
+		if band := c04DofBand(nu); band != "" {
+			w.Hit("meanci-" + band)
+			// the normal-theory interval for the same c would have a Student-t
+			// content visibly different from c, and the oracle is sharp enough
+			// to see it (reference-side quantities only)
+			if conf > 1e-3 && conf < 1-1e-9 {
+				z := math.Sqrt2 * math.Erfinv(conf) // P(|Z| < z) = c
+				w.HitIf(math.Abs(2*c04TLower(nu, -z)-ref.F64(ref.Sub(ref.NF(1), ref.NF(conf)))) > 100*(math.Min(1e-9, 1e-6*math.Min(conf, 1-conf))+4e-15+slack), "meanci-"+band+":normal-interval-content-off-by>100tol")
+			}
+		}
 		// The content must be c; near the ends of [0,1] an absolute 1e-9 says
 		// nothing, so there the tolerance is relative to min(c, 1-c) (1e-6 of
 		// it) plus 4e-15 for the rounding of 1-(1-c)/2 that any
@@ -486,7 +514,7 @@ func c04MeanCI(w *mon.W, c c04Case) {
 		tolC := math.Min(1e-9, 1e-6*math.Min(conf, 1-conf)) + 4e-15 + slack
 		errC := math.Abs(content - conf)
 		if conf > 0.5 && tl < 0 && th > 0 {
-			tails := ref.TCDF(nu, tl) + ref.TCDF(nu, -th)
+			tails := c04TLower(nu, tl) + c04TLower(nu, -th)
 			errC = math.Abs(tails - ref.F64(ref.Sub(ref.NF(1), ref.NF(conf))))
 		}
 		if !w.Err("meanci-content", errC, tolC) {
@@ -551,133 +579,65 @@ func hasSpread(xs []float64) bool {
 }
 
 func c04Run(r *mon.Run) {
-	r.Rule("random samples of 2..40 finite values, |x|<=1e6, relative spread >=1e-6, equal/unequal sizes and variances, ties, one constant sample; mu0 from within 1e-9 standard errors of the mean to 30+ standard errors away; 3 alternatives; Sample, *StreamStats and a plain struct as TTestSample; related calls: swapped samples, power-of-two scaling, shifts; error inputs; MeanCI for c in [0,1] incl. 0,1,1e-12,1-1e-12. Non-trivial = hits a class; distinct by hash of inputs.")
-	r.Assume("means/variances/T/DoF recomputed at 384 bits from the exact float64 inputs; Student-t reference: closed form (integer DoF) / gonum mathext (Welch)", "tolerances follow the conditioning |mean|/sd of the inputs (DESIGN section 4b)")
+	r.Rule("random samples of 2..40 finite values, |x|<=1e6, relative spread >=1e-6, equal/unequal sizes and variances, ties, one constant sample; mu0 from within 1e-9 standard errors of the mean to 30+ standard errors away; 3 alternatives; Sample, *StreamStats and a plain struct as TTestSample; related calls: swapped samples, power-of-two scaling, shifts; error inputs; MeanCI for c in [0,1] incl. 0,1,1e-12,1-1e-12. Large samples (classes tests-large, meanci-large): the same battery and related calls on 41..6000 values per sample, sizes log-uniform in five bands (41-100, 101-300, 301-1000, 1001-3000, 3001-6000) crossed with test, kind and alternative; equal sizes, both anywhere in the band, 2..40 values against a band size, and a ratio of 20..100; half of the two-sample cases placed at a statistic within 6 standard errors; every band of degrees of freedom (40-100 ... >3000) is gated per test and for MeanCI, together with cases where the reference tail (interval content) differs from the normal-theory one by more than 1e-7 (100 tolerances). Non-trivial = hits a class; distinct by hash of inputs.")
+	r.Assume("means/variances/T/DoF recomputed at 384 bits from the exact float64 inputs; Student-t reference: closed form (integer DoF) / gonum mathext (Welch); above 40 DoF the interval tails of MeanCI come from the directly evaluated incomplete beta (relative accuracy); at start-up the references are compared with each other, the quadrature of the density, the 384-bit closed form (even DoF) and Fisher's expansion about the normal for 41..20000 DoF", "tolerances follow the conditioning |mean|/sd of the inputs (DESIGN section 4b)")
 	r.Gate("meanci-data-scaled-down-by-2^-20..-200", "meanci-data-scaled-below-1e-12", "both-constant-and-equal", "paired-exact-differences", "paired-correlated-small-differences", "scaled-down-by-2^-20..-200", "equal-variances-unequal-sizes", "welch-unequal-n-and-variance", "tiny-T", "huge-T", "kind-sample", "kind-stream", "kind-struct",
 		"error-"+stats.ErrSampleSize.Error(), "error-"+stats.ErrZeroVariance.Error(), "error-"+stats.ErrMismatchedSamples.Error(),
 		"meanci-empty", "meanci-c<=0", "meanci-infinite", "meanci-regular", "one-sample-zero-variance", "meanci-tiny-c", "meanci-c-near-1")
+	for _, b := range c04DofBands {
+		for _, t := range []string{"two", "welch", "paired", "one"} {
+			r.Gate(t + "-" + b)
+		}
+		r.Gate(b+":P-differs-from-normal-tail-by>1e-7", "meanci-"+b, "meanci-"+b+":normal-interval-content-off-by>100tol")
+	}
+	r.Gate("sizes-in-a-ratio>=20", "large-two-sample-T-placed-within-6-standard-errors")
+	if err := c04RefSelfTest(); err != nil {
+		r.Inconclusive("reference self-test failed: " + err.Error())
+		return
+	}
 	tests := []string{"two", "welch", "paired", "one"}
 	kinds := []string{"sample", "stream", "struct"}
 	r.Parallel("tests", r.Pick(24000, 200000), func(w *mon.W, i int) {
-		rng := w.Rng
-		test := tests[i%4]
-		c := c04Case{Test: test, Kind: kinds[(i/4)%3]}
-		n1 := rng.Range(2, 40)
-		n2 := rng.Range(2, 40)
-		if rng.Intn(3) == 0 {
-			n2 = n1
-		}
-		if test == "paired" {
-			n2 = n1
-		}
-		c.X1 = c04Data(rng, n1)
-		c.X2 = c04Data(rng, n2)
-		if (test == "two" || test == "welch") && i%16 == 5 && len(c04EqualVar) > 0 {
-			// unequal sizes with bit-identical variances (exact small-integer
-			// data, scaled by a power of two): pooled and Welch DoF differ here
-			pr := c04EqualVar[rng.Intn(len(c04EqualVar))]
-			f := math.Ldexp(1, rng.Range(-6, 6))
-			off := float64(rng.Range(-8, 8))
-			c.X1, c.X2 = scaled(pr[0], f, off*f), scaled(pr[1], f, float64(rng.Range(-8, 8))*f)
+		c04TestsCase(w, i, false, func(rng *mon.Rand, test string) (int, int) {
+			n1 := rng.Range(2, 40)
+			n2 := rng.Range(2, 40)
+			if rng.Intn(3) == 0 {
+				n2 = n1
+			}
+			return n1, n2
+		})
+	})
+	// the same battery on samples of 41 to 6000 values: every test, kind and
+	// alternative in every band of sizes, equal, unequal and very unequal
+	// sizes; this is where the Student-t tail with hundreds and thousands of
+	// degrees of freedom is read
+	r.Parallel("tests-large", r.Pick(480, 6000), func(w *mon.W, i int) {
+		c04TestsCase(w, i, true, func(rng *mon.Rand, test string) (int, int) {
+			band := (i / 12) % len(c04SizeBands)
+			n1, n2 := c04BandSize(rng, band), c04BandSize(rng, band)
+			switch (i/60 + rng.Intn(2)) % 4 {
+			case 0: // equal sizes
+				n2 = n1
+			case 1: // both anywhere in the band
+			case 2: // a handful of values against hundreds or thousands
+				n1 = rng.Range(2, 40)
+			default: // a fixed large ratio
+				n2 = n1 / rng.Range(20, 100)
+				if n2 < 2 {
+					n2 = 2
+				}
+			}
 			if rng.Bool() {
-				c.X1, c.X2 = c.X2, c.X1
+				n1, n2 = n2, n1
 			}
-			rng.ShuffleF(c.X1)
-			rng.ShuffleF(c.X2)
-			w.Hit("equal-variances-unequal-sizes")
-		}
-		if test == "paired" && i%12 == 6 {
-			// correlated pairs: x2 = x1 - (small, exactly representable
-			// differences), the situation the paired test is made for
-			g := math.Ldexp(1, rng.Range(-40, -2))
-			for k := range c.X2 {
-				c.X1[k] = math.Round(c.X1[k])
-				c.X2[k] = c.X1[k] - float64(rng.Range(-3, 9))*g
+			if test == "paired" || test == "one" {
+				n1 = c04BandSize(rng, band)
 			}
-			w.Hit("paired-correlated-small-differences")
-		}
-		switch rng.Intn(6) {
-		case 0: // same location: small T
-			m1, m2 := ref.F64(ref.MomentsOf(c.X1).Mean), ref.F64(ref.MomentsOf(c.X2).Mean)
-			for k := range c.X2 {
-				c.X2[k] += m1 - m2
-			}
-		case 1: // one constant sample
-			if test != "paired" {
-				for k := range c.X2 {
-					c.X2[k] = c.X2[0]
-				}
-			}
-		}
-		// mu0 for paired and one-sample
-		if test == "paired" || test == "one" {
-			var m ref.Moments
 			if test == "one" {
-				m = ref.MomentsOf(c.X1)
-			} else {
-				d := make([]float64, n1)
-				for k := range d {
-					d[k] = c.X1[k] - c.X2[k]
-				}
-				m = ref.MomentsOf(d)
+				n2 = 2 // not part of the test
 			}
-			mean := ref.F64(m.Mean)
-			se := math.Sqrt(ref.F64(m.Var) / float64(m.N))
-			switch rng.Intn(5) {
-			case 0:
-				c.Mu0 = mean + se*rng.Sign()*rng.LogUniform(1e-10, 1e-7)
-			case 1:
-				c.Mu0 = mean + se*rng.Sign()*rng.Uniform(30, 100)
-			case 2:
-				c.Mu0 = 0
-			default:
-				c.Mu0 = mean + se*rng.Norm()*2
-			}
-			if test == "paired" && rng.Intn(4) == 0 {
-				// well separated pairs, tiny T via mu0 handled above
-			}
-		}
-		h := mon.NewHasher().S(test).S(c.Kind).Fs(c.X1).Fs(c.X2).F(c.Mu0)
-		for _, alt := range alts {
-			c.Alt = int(alt)
-			c04Judge(w, c)
-		}
-		// related calls: swap, scaling by a power of two, shift
-		if test == "two" || test == "welch" {
-			sw := c
-			sw.X1, sw.X2 = c.X2, c.X1
-			for _, alt := range alts {
-				sw.Alt = int(alt)
-				c04Judge(w, sw)
-			}
-			c04SwapLaw(w, c)
-		}
-		sc := c
-		f := math.Ldexp(1, rng.Range(-8, 4))
-		switch rng.Intn(3) {
-		case 0:
-			f = rng.LogUniform(1e-3, 1)
-		case 1: // far down: an absolute threshold anywhere in the computation shows
-			f = math.Ldexp(1, -rng.Range(20, 200))
-			w.Hit("scaled-down-by-2^-20..-200")
-		}
-		sc.X1, sc.X2 = scaled(c.X1, f, 0), scaled(c.X2, f, 0)
-		sc.Mu0 = c.Mu0 * f
-		sh := c
-		off := rng.Uniform(-1000, 1000)
-		sh.X1, sh.X2 = scaled(c.X1, 1, off), scaled(c.X2, 1, off)
-		if test == "one" {
-			sh.Mu0 = c.Mu0 + off
-		}
-		if test == "paired" {
-			sh.Mu0 = c.Mu0
-		}
-		for _, alt := range alts {
-			sc.Alt, sh.Alt = int(alt), int(alt)
-			c04Judge(w, sc)
-			c04Judge(w, sh)
-		}
-		w.Distinct(h.Sum())
+			return n1, n2
+		})
 	})
 	// error inputs
 	r.Parallel("errors", r.Pick(600, 6000), func(w *mon.W, i int) {
@@ -734,58 +694,11 @@ func c04Run(r *mon.Run) {
 		c04Judge(w, c)
 	})
 	r.Parallel("meanci", r.Pick(10000, 80000), func(w *mon.W, i int) {
-		rng := w.Rng
-		c := c04Case{Test: "meanci", Kind: []string{"slice", "sample"}[i%2]}
-		n := rng.Range(2, 40)
-		switch rng.Intn(12) {
-		case 0:
-			n = 0
-		case 1:
-			n = 1
-		}
-		c.X1 = c04Data(rng, n)
-		// a share of the data sets is rescaled (the content of the interval
-		// is scale-free): by a power of two, exactly, or by any factor
-		switch rng.Intn(6) {
-		case 0:
-			f := math.Ldexp(1, -rng.Range(20, 200))
-			for k := range c.X1 {
-				c.X1[k] *= f
-			}
-			w.Hit("meanci-data-scaled-down-by-2^-20..-200")
-		case 1:
-			f := math.Pow(10, rng.Uniform(-60, 60))
-			for k := range c.X1 {
-				c.X1[k] *= f
-			}
-			w.HitIf(f < 1e-12, "meanci-data-scaled-below-1e-12")
-		}
-		var conf float64
-		switch rng.Intn(10) {
-		case 0:
-			conf = 0
-		case 1:
-			conf = 1
-		case 2:
-			conf = 1e-12
-		case 3:
-			conf = 1 - 1e-12
-		case 4:
-			conf = -rng.Float64()
-		case 5:
-			conf = 1 + rng.Float64()
-		case 6:
-			conf = rng.Pick(0.5, 0.9, 0.95, 0.99, 0.999)
-		case 7:
-			conf = rng.LogUniform(1e-9, 1e-6)
-		case 8:
-			conf = 1 - rng.LogUniform(1e-9, 1e-6)
-		default:
-			conf = rng.Float64()
-		}
-		c.Conf = mon.F(conf)
-		w.Distinct(mon.NewHasher().S("ci").Fs(c.X1).F(conf).Sum())
-		c04Judge(w, c)
+		c04MeanCICase(w, i, false, func(rng *mon.Rand) int { return rng.Range(2, 40) })
+	})
+	// intervals from 41 to 6000 values, every band of sizes for both entry points
+	r.Parallel("meanci-large", r.Pick(400, 5000), func(w *mon.W, i int) {
+		c04MeanCICase(w, i, true, func(rng *mon.Rand) int { return c04BandSize(rng, (i/2)%len(c04SizeBands)) })
 	})
 	v := c04StreamVariant.Load()
 	r.Extra("streams_observed_then_extended_then_tested", v&(1<<20-1))
@@ -794,6 +707,324 @@ func c04Run(r *mon.Run) {
 	if v&(1<<20-1) == 0 || (v>>20)&(1<<20-1) == 0 || v>>40 == 0 {
 		r.Inconclusive("a StreamStats history variant was never built")
 	}
+}
+
+// c04TestsCase builds case i of the t-test battery with sample sizes from
+// `sizes` and judges it with its related calls (all alternatives, swapped
+// samples, scaled and shifted data). `large` marks the class of samples beyond
+// 40 values.
+func c04TestsCase(w *mon.W, i int, large bool, sizes func(rng *mon.Rand, test string) (int, int)) {
+	tests := []string{"two", "welch", "paired", "one"}
+	kinds := []string{"sample", "stream", "struct"}
+	rng := w.Rng
+	test := tests[i%4]
+	c := c04Case{Test: test, Kind: kinds[(i/4)%3]}
+	n1, n2 := sizes(rng, test)
+	if test == "paired" {
+		n2 = n1
+	}
+	c.X1 = c04Data(rng, n1)
+	c.X2 = c04Data(rng, n2)
+	if !large && (test == "two" || test == "welch") && i%16 == 5 && len(c04EqualVar) > 0 {
+		// unequal sizes with bit-identical variances (exact small-integer
+		// data, scaled by a power of two): pooled and Welch DoF differ here
+		pr := c04EqualVar[rng.Intn(len(c04EqualVar))]
+		f := math.Ldexp(1, rng.Range(-6, 6))
+		off := float64(rng.Range(-8, 8))
+		c.X1, c.X2 = scaled(pr[0], f, off*f), scaled(pr[1], f, float64(rng.Range(-8, 8))*f)
+		if rng.Bool() {
+			c.X1, c.X2 = c.X2, c.X1
+		}
+		rng.ShuffleF(c.X1)
+		rng.ShuffleF(c.X2)
+		w.Hit("equal-variances-unequal-sizes")
+	}
+	if test == "paired" && i%12 == 6 {
+		// correlated pairs: x2 = x1 - (small, exactly representable
+		// differences), the situation the paired test is made for
+		g := math.Ldexp(1, rng.Range(-40, -2))
+		for k := range c.X2 {
+			c.X1[k] = math.Round(c.X1[k])
+			c.X2[k] = c.X1[k] - float64(rng.Range(-3, 9))*g
+		}
+		w.Hit("paired-correlated-small-differences")
+	}
+	switch rng.Intn(6) {
+	case 0: // same location: small T
+		m1, m2 := ref.F64(ref.MomentsOf(c.X1).Mean), ref.F64(ref.MomentsOf(c.X2).Mean)
+		for k := range c.X2 {
+			c.X2[k] += m1 - m2
+		}
+	case 1: // one constant sample
+		if test != "paired" {
+			for k := range c.X2 {
+				c.X2[k] = c.X2[0]
+			}
+		}
+	}
+	if test == "two" || test == "welch" {
+		lo, hi := math.Min(float64(n1), float64(n2)), math.Max(float64(n1), float64(n2))
+		w.HitIf(hi >= 20*lo, "sizes-in-a-ratio>=20")
+	}
+	if large && (test == "two" || test == "welch") && rng.Bool() {
+		// independent centres make |T| huge with this many values: half of
+		// the large two-sample cases are moved to a statistic of u in [-6, 6]
+		// standard errors, where a p-value says something about the tail
+		m1, m2 := ref.MomentsOf(c.X1), ref.MomentsOf(c.X2)
+		se := math.Sqrt(ref.F64(m1.Var)/float64(n1) + ref.F64(m2.Var)/float64(n2))
+		delta := ref.F64(m1.Mean) - ref.F64(m2.Mean) - rng.Uniform(-6, 6)*se
+		moved := scaled(c.X2, 1, delta)
+		ok := se > 0
+		for _, x := range moved {
+			ok = ok && math.Abs(x) <= 1e6
+		}
+		if ok {
+			c.X2 = moved
+			w.Hit("large-two-sample-T-placed-within-6-standard-errors")
+		}
+	}
+	// mu0 for paired and one-sample
+	if test == "paired" || test == "one" {
+		var m ref.Moments
+		if test == "one" {
+			m = ref.MomentsOf(c.X1)
+		} else {
+			d := make([]float64, n1)
+			for k := range d {
+				d[k] = c.X1[k] - c.X2[k]
+			}
+			m = ref.MomentsOf(d)
+		}
+		mean := ref.F64(m.Mean)
+		se := math.Sqrt(ref.F64(m.Var) / float64(m.N))
+		switch rng.Intn(5) {
+		case 0:
+			c.Mu0 = mean + se*rng.Sign()*rng.LogUniform(1e-10, 1e-7)
+		case 1:
+			c.Mu0 = mean + se*rng.Sign()*rng.Uniform(30, 100)
+		case 2:
+			c.Mu0 = 0
+		default:
+			c.Mu0 = mean + se*rng.Norm()*2
+		}
+		if test == "paired" && rng.Intn(4) == 0 {
+			// well separated pairs, tiny T via mu0 handled above
+		}
+	}
+	h := mon.NewHasher().S(test).S(c.Kind).Fs(c.X1).Fs(c.X2).F(c.Mu0)
+	for _, alt := range alts {
+		c.Alt = int(alt)
+		c04Judge(w, c)
+	}
+	// related calls: swap, scaling by a power of two, shift
+	if test == "two" || test == "welch" {
+		sw := c
+		sw.X1, sw.X2 = c.X2, c.X1
+		for _, alt := range alts {
+			sw.Alt = int(alt)
+			c04Judge(w, sw)
+		}
+		c04SwapLaw(w, c)
+	}
+	sc := c
+	f := math.Ldexp(1, rng.Range(-8, 4))
+	switch rng.Intn(3) {
+	case 0:
+		f = rng.LogUniform(1e-3, 1)
+	case 1: // far down: an absolute threshold anywhere in the computation shows
+		f = math.Ldexp(1, -rng.Range(20, 200))
+		w.Hit("scaled-down-by-2^-20..-200")
+	}
+	sc.X1, sc.X2 = scaled(c.X1, f, 0), scaled(c.X2, f, 0)
+	sc.Mu0 = c.Mu0 * f
+	sh := c
+	off := rng.Uniform(-1000, 1000)
+	sh.X1, sh.X2 = scaled(c.X1, 1, off), scaled(c.X2, 1, off)
+	if test == "one" {
+		sh.Mu0 = c.Mu0 + off
+	}
+	if test == "paired" {
+		sh.Mu0 = c.Mu0
+	}
+	for _, alt := range alts {
+		sc.Alt, sh.Alt = int(alt), int(alt)
+		c04Judge(w, sc)
+		c04Judge(w, sh)
+	}
+	w.Distinct(h.Sum())
+}
+
+// c04SizeBands are the bands of sample sizes of the classes beyond 40 values;
+// c04BandSize draws a size log-uniformly from one of them.
+var c04SizeBands = [][2]int{{41, 100}, {101, 300}, {301, 1000}, {1001, 3000}, {3001, 6000}}
+
+func c04BandSize(rng *mon.Rand, band int) int {
+	b := c04SizeBands[band]
+	n := int(rng.LogUniform(float64(b[0]), float64(b[1]+1)))
+	if n < b[0] {
+		n = b[0]
+	}
+	if n > b[1] {
+		n = b[1]
+	}
+	return n
+}
+
+// c04DofBand names the region of degrees of freedom beyond the basic workload
+// ("" up to 40).
+func c04DofBand(dof float64) string {
+	switch {
+	case !(dof > 40):
+		return ""
+	case dof <= 100:
+		return "dof-40..100"
+	case dof <= 300:
+		return "dof-100..300"
+	case dof <= 1000:
+		return "dof-300..1000"
+	case dof <= 3000:
+		return "dof-1000..3000"
+	}
+	return "dof>3000"
+}
+
+var c04DofBands = []string{"dof-40..100", "dof-100..300", "dof-300..1000", "dof-1000..3000", "dof>3000"}
+
+// c04TLower is the reference P(T <= t) used for the two tails of a confidence
+// interval. The finite closed form computes a tail as 0.5 - A/2 from a sum of
+// nu/2 terms: exact enough for the few terms of nu <= 40, but with hundreds
+// of terms the rounding of the sum (about 1e-14) is all that is left of a tail
+// of 1e-12, and the tolerance near c = 1 is relative to 1-c. Beyond 40
+// degrees of freedom the tail below -1 therefore comes from the directly
+// evaluated incomplete beta (ref.TTail: relative error below 1e-10 against
+// the 384-bit closed form and the quadrature of the density, checked at
+// start-up).
+func c04TLower(nu, t float64) float64 {
+	if nu > 40 && t <= -1 {
+		return ref.TTail(nu, -t)
+	}
+	return ref.TCDF(nu, t)
+}
+
+// c04Phi is the standard normal CDF (only used to decide, on the reference
+// side, whether a case could tell a Student-t tail from a normal one).
+func c04Phi(x float64) float64 { return 0.5 * math.Erfc(-x/math.Sqrt2) }
+
+// c04MeanCICase builds and judges case i of the MeanCI workload with the
+// sample size from `nOf` (`large`: beyond 40 values, no empty or single-value
+// input).
+func c04MeanCICase(w *mon.W, i int, large bool, nOf func(rng *mon.Rand) int) {
+	rng := w.Rng
+	c := c04Case{Test: "meanci", Kind: []string{"slice", "sample"}[i%2]}
+	n := nOf(rng)
+	switch rng.Intn(12) {
+	case 0:
+		if !large {
+			n = 0
+		}
+	case 1:
+		if !large {
+			n = 1
+		}
+	}
+	c.X1 = c04Data(rng, n)
+	// a share of the data sets is rescaled (the content of the interval
+	// is scale-free): by a power of two, exactly, or by any factor
+	switch rng.Intn(6) {
+	case 0:
+		f := math.Ldexp(1, -rng.Range(20, 200))
+		for k := range c.X1 {
+			c.X1[k] *= f
+		}
+		w.Hit("meanci-data-scaled-down-by-2^-20..-200")
+	case 1:
+		f := math.Pow(10, rng.Uniform(-60, 60))
+		for k := range c.X1 {
+			c.X1[k] *= f
+		}
+		w.HitIf(f < 1e-12, "meanci-data-scaled-below-1e-12")
+	}
+	var conf float64
+	switch rng.Intn(10) {
+	case 0:
+		conf = 0
+	case 1:
+		conf = 1
+	case 2:
+		conf = 1e-12
+	case 3:
+		conf = 1 - 1e-12
+	case 4:
+		conf = -rng.Float64()
+	case 5:
+		conf = 1 + rng.Float64()
+	case 6:
+		conf = rng.Pick(0.5, 0.9, 0.95, 0.99, 0.999)
+	case 7:
+		conf = rng.LogUniform(1e-9, 1e-6)
+	case 8:
+		conf = 1 - rng.LogUniform(1e-9, 1e-6)
+	default:
+		conf = rng.Float64()
+	}
+	c.Conf = mon.F(conf)
+	w.Distinct(mon.NewHasher().S("ci").Fs(c.X1).F(conf).Sum())
+	c04Judge(w, c)
+}
+
+// c04RefSelfTest checks the Student-t reference where the large-sample classes
+// use it (40 to 20000 degrees of freedom, integer and not): the closed form
+// and the incomplete-beta form against the quadrature of the density, and all
+// of them against Fisher's expansion about the normal distribution
+// (Abramowitz & Stegun 26.7.8), which none of them is built from.
+func c04RefSelfTest() error {
+	phi := func(x float64) float64 { return math.Exp(-x*x/2) / math.Sqrt(2*math.Pi) }
+	for _, nu := range []float64{41, 77, 160, 333, 999, 1000, 1001, 1024, 2500, 5999, 11998, 19999} {
+		for _, t := range []float64{-9, -4.5, -3, -1.7, -0.6, -1e-3, 1e-7, 0.3, 1, 2.2, 3.7, 6, 14} {
+			q := ref.TCDFQuad(nu, t)
+			if a := ref.TCDF(nu, t); !(math.Abs(a-q) <= 2e-11) {
+				return fmt.Errorf("t CDF nu=%g t=%g: closed form %.15g, quadrature %.15g", nu, t, a, q)
+			}
+			for _, h := range []float64{nu - 0.37, nu, nu + 0.5} {
+				b, qh := ref.TCDFBeta(h, t), ref.TCDFQuad(h, t)
+				if !(math.Abs(b-qh) <= 2e-11) {
+					return fmt.Errorf("t CDF nu=%g t=%g: incomplete beta %.15g, quadrature %.15g", h, t, b, qh)
+				}
+				if math.Abs(t) <= 6 {
+					t2 := t * t
+					g1 := t * (t2 + 1) / 4
+					g2 := t * (((3*t2-7)*t2-5)*t2 - 3) / 96
+					g3 := t * (((((t2-11)*t2+14)*t2+6)*t2-3)*t2 - 15) / 384
+					f := c04Phi(t) - phi(t)*(g1/h+g2/(h*h)+g3/(h*h*h))
+					// the next term is of the order t^15/nu^4 (measured: below
+					// 1e-4 of this envelope); the first one is t^3/(4 nu)
+					bound := 2e-11 + 1e-3*phi(t)*math.Pow(1+math.Abs(t), 15)/(h*h*h*h)
+					if !(math.Abs(b-f) <= bound) {
+						return fmt.Errorf("t CDF nu=%g t=%g: reference %.15g, Fisher expansion %.15g (bound %.3g)", h, t, b, f, bound)
+					}
+				}
+			}
+		}
+	}
+	// the tails, in relative terms: incomplete beta against the quadrature of
+	// the density over [t, inf) and, for even nu, the closed form at 384 bits
+	for _, nu := range []float64{41, 42, 99.5, 500, 1000, 1001, 2999.3, 5999, 6000, 12000} {
+		for _, t := range []float64{1, 1.8, 3, 4.4, 6, 7.2, 9, 13} {
+			a, q := ref.TTail(nu, t), ref.TTailQuad(nu, t)
+			if !(math.Abs(a/q-1) <= 1e-10) {
+				return fmt.Errorf("t tail nu=%g t=%g: incomplete beta %.15g, quadrature %.15g", nu, t, a, q)
+			}
+			if nu == math.Floor(nu) && int(nu)%2 == 0 {
+				if e := ref.TTailEven(int(nu), t); !(math.Abs(a/e-1) <= 1e-10) {
+					return fmt.Errorf("t tail nu=%g t=%g: incomplete beta %.15g, closed form at 384 bits %.15g", nu, t, a, e)
+				}
+			}
+			if c := ref.TCDF(nu, -t); !(math.Abs(a-c) <= 2e-11) {
+				return fmt.Errorf("t tail nu=%g t=%g: incomplete beta %.15g, CDF reference %.15g", nu, t, a, c)
+			}
+		}
+	}
+	return nil
 }
 
 // c04EqualVar: pairs of small-integer samples of different sizes whose sample
